@@ -1,184 +1,18 @@
-(* Correspondence for C08: one case = aggregator configuration, the datapoints of one timer
-   series in arrival order (value and rate as float64 bit patterns), the tags of the flushed
-   timer, the strconv.ParseFloat table for the items of its histogram tag, and every field of
-   the real flushed gostatsd.Timer.  [check_case] runs [flush_timer] over exact rationals and
-   compares under the projection of DESIGN 3.1:
-     exactly in both regimes   min, max, the sorted values, median of an odd count, percentile
-                               counts and boundaries, the set of percentile names, the
-                               histogram (as a multiset of (bound, count) under float ==);
-     exactly in the exact regime, else within 1e-9 of the conditioning quantity
-                               sum, sum of squares, median, sampled count, percentile sums;
-     within 1e-9 always        mean, percentile means, variance (against StdDev squared),
-                               per-second rate;
-     Count                     floor(S + 1/2) for an S within the sampled-count tolerance.
-   Percentiles are compared as a SET of (name, value): Go ranges over a map (equal lengths, and
-   every model entry has an observed entry of the same name with a matching value; the model's
-   names are distinct).  Theorems about [flush_timer]: Props/C08.v ([C08_refines_spec]: it equals
-   [timer_spec] for every input). *)
-From Coq Require Import String.
-From Coq Require Export List ZArith QArith Qcanon.
-From GS Require Export Base.Bytes Base.CorrLib Base.GoFloat Model.GoPartial Model.Histogram Model.Stats.
-Import ListNotations.
-Local Open Scope Z_scope.
+(* Correspondence for C08.  Two case shapes:
+     Single   one timer series through Receive -> ReceiveMap -> Flush, compared with
+              [Stats.flush_timer] in the exact and the general (1e-9) float regime: Corr/C08Single.v;
+     Full     a history of ReceiveMap | Flush | Reset on one aggregator, the complete aggregate map
+              compared with Model/Aggregator.v after every operation: Corr/C08Full.v.
+   Theorems about the models: Props/C08.v. *)
+From GS Require Export Corr.C08Single Corr.C08Full.
 
-Record obs := Obs {
-  o_count : Z;
-  o_sampled : Z; o_persec : Z; o_mean : Z; o_median : Z; o_min : Z; o_max : Z;
-  o_stddev : Z; o_sum : Z; o_sumsq : Z;          (* float64 bit patterns *)
-  o_values : list Z;
-  o_pcts : list (str * Z);
-  o_hist : option (list (bound * Z))
-}.
-
-Record c08case := Case {
-  k_pcts : list Z;
-  k_mask : pmask;
-  k_limit : Z;
-  k_interval_ns : Z;
-  k_tags : list str;
-  k_table : list (str * option bound);
-  k_points : list (Z * Z);                       (* (value bits, rate bits), arrival order *)
-  k_exact : bool;
-  k_obs : obs
-}.
-
-Definition oracle (t : list (str * option bound)) (s : str) : option bound :=
-  match assoc_str s t with Some r => r | None => None end.
-
-(* every item the model will ask about is in the table *)
-Definition oracle_complete (c : c08case) : bool :=
-  match find_tag (k_tags c) with
-  | None => true
-  | Some tag =>
-      match tag_items tag with
-      | Ok items => forallb (fun s => match assoc_str s (k_table c) with Some _ => true | None => false end) items
-      | Panic => false
-      end
-  end.
-
-Definition config_of (c : c08case) : config Qc :=
-  {| c_pcts := k_pcts c; c_mask := k_mask c; c_limit := k_limit c;
-     c_interval := (Qc_of_Z (k_interval_ns c) / Qc_of_Z 1000000000)%Qc |}.
-
-Definition xs_of (c : c08case) : list Qc := map (fun vr => Qc_of_bits (fst vr)) (k_points c).
-Definition sampled_of (c : c08case) : Qc :=
-  sampled_count (map (fun vr => Qc_of_bits (snd vr)) (k_points c)).
-
-Definition model_of (c : c08case) : outcome (timer Qc) :=
-  flush_timer qc_ops (oracle (k_table c)) go_rank false (config_of c)
-    (fresh qc_ops (xs_of c) (sampled_of c) (k_tags c) HNil).
-
-(* ---- comparisons *)
-Definition qabs (x : Qc) : Qc := if Qcleb 0 x then x else (- x)%Qc.
-Definition tol : Qc := Q2Qc (1 # 1000000000).
-Definition qeq (a b : Qc) : bool := Qc_eq_bool a b.
-Definition close (scale a b : Qc) : bool := Qcleb (qabs (a - b)) (tol * scale)%Qc.
-Definition fin (b : Z) : bool := f64_is_finite b.
-(* exact: the observed double is finite and is exactly the model's rational *)
-Definition same (m : Qc) (o : Z) : bool := fin o && qeq m (Qc_of_bits o).
-Definition near (scale m : Qc) (o : Z) : bool := fin o && close scale m (Qc_of_bits o).
-Definition cmp (exact : bool) (scale m : Qc) (o : Z) : bool := if exact then same m o else near scale m o.
-
-Definition scale1 (xs : list Qc) : Qc := qsum (map qabs xs).
-Definition scale2 (xs : list Qc) : Qc := qsumsq xs.
-Definition scale_max (xs : list Qc) : Qc := fold_right qmax 0%Qc (map qabs xs).
-
-Definition kind_of (name : str) : N :=
-  if has_prefix (bs "count_") name then 0%N
-  else if has_prefix (bs "upper_") name || has_prefix (bs "lower_") name then 1%N
-  else if has_prefix (bs "mean_") name then 2%N
-  else if has_prefix (bs "sum_squares_") name then 4%N
-  else if has_prefix (bs "sum_") name then 3%N
-  else 9%N.
-
-(* one model percentile entry against the observed entry of the same name (names are distinct:
-   "count_" ++ itoa p ... for the distinct keys p of the Go map); [sc] = (max|x|, sum|x|, sum x^2) *)
-Definition pct_ok (exact : bool) (sc : Qc * Qc * Qc) (o : list (str * Z)) (e : str * Qc) : bool :=
-  let '(smax, s1, s2) := sc in
-  match assoc_str (fst e) o with
-  | None => false
-  | Some ov =>
-    match kind_of (fst e) with
-    | 0%N | 1%N => same (snd e) ov
-    | 2%N => near smax (snd e) ov
-    | 3%N => cmp exact s1 (snd e) ov
-    | 4%N => cmp exact s2 (snd e) ov
-    | _ => false
-    end
-  end.
-
-(* histograms: canonical key (NaN keys all alike, -0 = +0), sorted *)
-Definition bkey (b : bound) : Z * Z :=
-  match b with
-  | BNaN => (0, 0) | BPInf => (1, 0) | BNInf => (2, 0)
-  | BFin x => (3, if f64_is_zero x then 0 else x)
-  end.
-Definition ent := (Z * Z * Z)%type.
-Definition ent_leb (a b : ent) : bool :=
-  let '(a1, a2, a3) := a in let '(b1, b2, b3) := b in
-  (a1 <? b1) || ((a1 =? b1) && ((a2 <? b2) || ((a2 =? b2) && (a3 <=? b3)))).
-Fixpoint ent_insert (x : ent) (l : list ent) : list ent :=
-  match l with [] => [x] | y :: r => if ent_leb x y then x :: l else y :: ent_insert x r end.
-Definition canon_hist (h : list (bound * Z)) : list ent :=
-  fold_right ent_insert [] (map (fun e => (bkey (fst e), snd e)) h).
-Definition ent_eqb (a b : ent) : bool :=
-  let '(a1, a2, a3) := a in let '(b1, b2, b3) := b in (a1 =? b1) && (a2 =? b2) && (a3 =? b3).
-Definition hist_ok (m : hist) (o : option (list (bound * Z))) : bool :=
-  match m, o with
-  | HNil, None => true
-  | HMap h, Some h' => list_eqb ent_eqb (canon_hist h) (canon_hist h')
-  | _, _ => false
-  end.
-
-Definition zero_bits (b : Z) : bool := f64_is_zero b.
-
-Definition count_ok (exact : bool) (s : Qc) (o : Z) : bool :=
-  if exact then o =? Qcfloor (s + qhalf)
-  else (Qcfloor (s * (1 - tol) + qhalf) <=? o) && (o <=? Qcfloor (s * (1 + tol) + qhalf)).
+Inductive c08case := Single (c : c08single) | Full (c : c08full).
 
 Definition check_case (c : c08case) : bool :=
-  let o := k_obs c in
-  let xs := xs_of c in
-  let ex := k_exact c in
-  let n := length xs in
-  let smax := scale_max xs in
-  let s1 := scale1 xs in
-  let s2 := scale2 xs in
-  forallb (fun vr => fin (fst vr) && f64_finite_pos (snd vr)) (k_points c) &&
-  oracle_complete c &&
-  match model_of c with
-  | Panic => false
-  | Ok t =>
-      hist_ok (t_hist t) (o_hist o) &&
-      (Nat.eqb (length (o_values o)) n) &&
-      if has_histogram_tag (k_tags c) then
-        (* buckets only: none of the summary statistics, values kept *)
-        (o_count o =? 0) && zero_bits (o_persec o) && zero_bits (o_mean o) && zero_bits (o_median o)
-        && zero_bits (o_min o) && zero_bits (o_max o) && zero_bits (o_stddev o) && zero_bits (o_sum o)
-        && zero_bits (o_sumsq o) && (Nat.eqb (length (o_pcts o)) 0)
-        && cmp ex (sampled_of c) (t_sampled t) (o_sampled o)
-        && forallb fin (o_values o)
-        && list_eqb qeq (qsort xs) (qsort (map Qc_of_bits (o_values o)))
-      else if Nat.eqb n 0 then
-        (o_count o =? 0) && zero_bits (o_sampled o) && zero_bits (o_persec o) && zero_bits (o_mean o)
-        && zero_bits (o_median o) && zero_bits (o_min o) && zero_bits (o_max o) && zero_bits (o_stddev o)
-        && zero_bits (o_sum o) && zero_bits (o_sumsq o) && (Nat.eqb (length (o_pcts o)) 0)
-      else
-        count_ok ex (t_sampled t) (o_count o)
-        && cmp ex (t_sampled t) (t_sampled t) (o_sampled o)
-        && near (t_persec t) (t_persec t) (o_persec o)
-        && near smax (t_mean t) (o_mean o)
-        && cmp (ex || Nat.odd n) smax (t_median t) (o_median o)
-        && same (t_min t) (o_min o)
-        && same (t_max t) (o_max o)
-        && fin (o_stddev o)
-        && close (smax * smax) (t_var t) (Qc_of_bits (o_stddev o) * Qc_of_bits (o_stddev o))
-        && cmp ex s1 (t_sum t) (o_sum o)
-        && cmp ex s2 (t_sumsq t) (o_sumsq o)
-        && forallb fin (o_values o)
-        && list_eqb qeq (t_values t) (map Qc_of_bits (o_values o))
-        && (Nat.eqb (length (o_pcts o)) (length (t_pcts t)))
-        && forallb (pct_ok ex (smax, s1, s2) (o_pcts o)) (t_pcts t)
-  end.
+  match c with Single s => check_single s | Full f => check_full f end.
 
-Definition explain_case (c : c08case) := (oracle_complete c, model_of c).
+Definition explain_case (c : c08case) :=
+  match c with
+  | Single s => inl (explain_single s)
+  | Full f => inr (explain_full f)
+  end.
